@@ -5,14 +5,14 @@ from mc import core, det, domains, sse
 PROPERTY = 'C07'
 ENGINE = 'E2 explicit-state search over search histories on the real index (BFS on canonical state + every sequence up to depth k, no dedup) + E1 input-intactness sweep'
 LEVEL = 'model_checking'
-DEPTH = {'quick': 4, 'thorough': 6}
+DEPTH = {'quick': 4, 'thorough': 5}
 STATE_CAP = 60
 
 
 def describe(tier):
     return {
         'rule': 'histories: for each scheme x {base, default-like} configuration x 3 small databases, the alphabet is search(w) for 3 present '
-                'and 2 absent keywords, with ONE token object per keyword reused across the history. (a) BFS: state = history, '
+                'and 2 absent keywords on the index plus 2 searches on a SECOND index of another database built under the same key by the same scheme object (it shares one keyword, with a different posting list), with ONE token object per keyword reused across the history. (a) BFS: state = history, '
                 'canon = (EDB.serialize(), every token.serialize(), the scheme configuration\'s primitive fields); every event is applied to '
                 'every reachable canonical state (fixpoint; if the property holds there is exactly one state with 5 self-loops); '
                 '(b) every sequence of length <= %d over the 5 events is executed on a fresh copy without any deduplication. Oracle at every '
@@ -23,7 +23,7 @@ def describe(tier):
                 % DEPTH[tier],
         'bounds': 'alphabet 5, BFS to fixpoint (cap %d states), all 5^k sequences k<=%d' % (STATE_CAP, DEPTH[tier]),
         'assumptions': ['hidden state can only live in the EDB object, the token objects or the scheme/config object (canon covers these three)'],
-        'must_be_nonzero': ['bfs-fixpoint', 'sequences', 'inputs-checked', 'default-config-checked'],
+        'must_be_nonzero': ['bfs-fixpoint', 'sequences', 'inputs-checked', 'default-config-checked', 'second-index'],
     }
 
 
@@ -92,25 +92,41 @@ class Hist:
         present = list(db)[:3]
         absent = [w for _, w in domains.absent_keywords(db, sse.kw_limit(name, cfg), g)][:5 - len(present)]
         self.alphabet = present + absent
+        # a SECOND index alive at the same time: another database under the same key by the same scheme object; it shares the first
+        # keyword (with a different posting list) and has one keyword of its own.  Events 5 and 6 search the second index.
+        ids = cfg1.get('param_identifier_size', 8)
+        w_shared, w_own = present[0], (absent[0] if absent else b'Zown')
+        self.db2 = {w_shared: [x for x in domains.make_ids(4, ids, g, awkward=False) if x not in db[w_shared]][:2], w_own: domains.make_ids(1, ids, g, awkward=False)}
+        self.raw2 = None
+        if sse.finalize_cfg(name, cfg1, self.db2) == sse.finalize_cfg(name, cfg1, db) and len(w_own) <= sse.kw_limit(name, cfg1):
+            try:
+                self.raw2 = self.scheme.EDBSetup(self.key, self.db2).serialize()
+            except Exception:
+                self.raw2 = None
+        self.events = [(0, i) for i in range(len(self.alphabet))]
+        if self.raw2 is not None:
+            self.events += [(1, self.alphabet.index(w_shared)), (1, self.alphabet.index(w_own))] if w_own in self.alphabet else [(1, self.alphabet.index(w_shared))]
         self.tok_raw = [self.scheme.TokenGen(self.key, w).serialize() for w in self.alphabet]
         self.cfgfp = cfg_fingerprint(self.scheme)
         # single-search answers from pristine copies
         self.single = []
-        for i, w in enumerate(self.alphabet):
-            edb1, toks = self.fresh()
+        for (which, i) in self.events:
+            edbs, toks = self.fresh()
             alone = self.L.SSEScheme(copy.deepcopy(cfg1))       # a scheme object that has never searched anything else
-            self.single.append(self.norm(alone.Search(edb1, toks[i]).get_result_list()))
+            self.single.append(self.norm(alone.Search(edbs[which], toks[i]).get_result_list()))
 
     def norm(self, got):
         return frozenset(got) if self.name in sse.SET_RESULT else tuple(got)
 
     def fresh(self):
-        edb = self.L.SSEEncryptedDatabase.deserialize(self.raw, self.scheme.config)
+        edbs = [self.L.SSEEncryptedDatabase.deserialize(self.raw, self.scheme.config)]
+        if self.raw2 is not None:
+            edbs.append(self.L.SSEEncryptedDatabase.deserialize(self.raw2, self.scheme.config))
         toks = [self.L.SSEToken.deserialize(t, self.scheme.config) for t in self.tok_raw]
-        return edb, toks
+        return edbs, toks
 
-    def canon(self, edb, toks):
-        return (edb.serialize(), tuple(t.serialize() for t in toks), cfg_fingerprint(self.scheme))
+    def canon(self, edbs, toks):
+        return (tuple(e.serialize() for e in edbs), tuple(t.serialize() for t in toks), cfg_fingerprint(self.scheme))
 
 
 def run_hist(r, seed, p, tier):
@@ -122,25 +138,26 @@ def run_hist(r, seed, p, tier):
     except Exception as e:
         r.count("setup-raises (C01's subject, skipped here)")
         return
-    init = (h.raw, tuple(h.tok_raw), h.cfgfp)
-    nev = len(h.alphabet)
+    init = ((h.raw,) + ((h.raw2,) if h.raw2 is not None else ()), tuple(h.tok_raw), h.cfgfp)
+    nev = len(h.events)
+    if h.raw2 is not None:
+        r.count('second-index')
 
-    def step(edb, toks, ev, hist):
+    def step(edbs, toks, ev, hist):
         r['transitions'] += 1
-        c = dict(case, history=hist + [ev], alphabet=h.alphabet)
+        which, ti = h.events[ev]
+        c = dict(case, history=hist + [ev], alphabet=h.alphabet, events=h.events)
         try:
-            got = h.norm(h.scheme.Search(edb, toks[ev]).get_result_list())
+            got = h.norm(h.scheme.Search(edbs[which], toks[ti]).get_result_list())
         except Exception as e:
             r.v(PROPERTY, name, 'search-raises-in-history', '%s:%s' % (core.exc_site(e), type(e).__name__), c, h.single[ev], core.exc_text(e))
             r.outcome('raises')
             return False
         if got != h.single[ev]:
-            r.v(PROPERTY, name, 'answer-depends-on-history', 'present' if h.alphabet[ev] in h.db else 'absent', c, h.single[ev], got)
+            dbx = h.db if which == 0 else h.db2
+            r.v(PROPERTY, name, 'answer-depends-on-history', ('present' if h.alphabet[ti] in dbx else 'absent') + ('/second-index' if which else ''), c, h.single[ev], got)
             r.outcome('answer-differs')
             return False
-        if (not got) != (h.alphabet[ev] not in h.db) or (h.alphabet[ev] in h.db and got != h.norm(h.db[h.alphabet[ev]])):
-            # C01/C02 own plain wrong answers; only note them
-            r.count('single-answer-wrong (C01/C02)')
         return True
 
     # (a) BFS over canonical states
@@ -153,7 +170,7 @@ def run_hist(r, seed, p, tier):
             edb, toks = h.fresh()
             ok = True
             for e0 in hist:
-                h.scheme.Search(edb, toks[e0])
+                h.scheme.Search(edb[h.events[e0][0]], toks[h.events[e0][1]])
             step(edb, toks, ev, hist)
             k = h.canon(edb, toks)
             if k != init and not changed_reported:
@@ -179,7 +196,7 @@ def run_hist(r, seed, p, tier):
             edb, toks = h.fresh()
             r['evaluations'] += 1
             r.count('sequences')
-            if len(set(seq)) < len(seq) or len({h.alphabet[e] in h.db for e in seq}) == 2:
+            if len(set(seq)) < len(seq) or len({h.alphabet[h.events[e][1]] in h.db for e in seq}) == 2:
                 r['nontrivial'] += 1
             for i, ev in enumerate(seq):
                 if not step(edb, toks, ev, list(seq[:i])):
